@@ -190,3 +190,19 @@ Proof.
   - intros r p H c s Hs. eapply K in H; [| vm_compute; reflexivity]. inversion H; subst p.
     cbn [p_set tget] in Hs. destruct (1 =? c); [inversion Hs; lia |]. destruct (3 =? c); [inversion Hs; lia | discriminate].
 Qed.
+
+(* non-vacuity of the delivery theorems: a snapshot taken after a grant at sequence 4 (client position 3) and one taken
+   after a revocation at sequence 5 (client position 4) satisfy their hypotheses *)
+Example C13_nonvacuous_delivery :
+  let granted := mkSnap 4 (mkUser 4 [(1, 1); (2, 4)] [] [] []) []
+                        [(1, []); (2, [mkLog 2 1 1 false false])] [mkDoc 1 [(2, 2, 0)] (Some [2])] in
+  let revoked := mkSnap 5 (mkUser 5 [(1, 1)] [(2, [(2, 5)])] [] []) []
+                        [(1, []); (2, [mkLog 3 1 1 false false])] [mkDoc 1 [(2, 3, 0)] (Some [2])] in
+  feeds_consistent_b (feeds granted (mk 0 0 3)) = true
+  /\ In (2, 4) (inherited (s_user granted) (s_roles granted))
+  /\ pull granted (mk 0 0 3) 0 = [mkRow 4 2 1 1 [] false false false false; mkRow 0 4 0 0 [] false false false true]
+  /\ feeds_consistent_b (feeds revoked (mk 0 0 4)) = true
+  /\ In (2, 5) (revoked_channels (s_user revoked) (s_roles revoked) 4 0 0)
+  /\ user_can_see revoked 1 = false
+  /\ pull revoked (mk 0 0 4) 0 = [mkRow 5 3 1 1 [] false true false false; mkRow 0 5 0 0 [] false false false true].
+Proof. vm_compute. repeat split; try reflexivity; [right; left; reflexivity | left; reflexivity]. Qed.
